@@ -501,6 +501,13 @@ def _iter_is_sorted(loop, flow: Flow) -> bool:
     if not isinstance(loop, ast.For):
         return False
     it = loop.iter
+    for _ in range(4):                         # it = iter(sorted(values)) / a named sorted list
+        if isinstance(it, ast.Name):
+            it = flow.expand(it)
+        elif isinstance(it, ast.Call) and src(it.func) in ("iter", "list", "tuple") and len(it.args) == 1:
+            it = it.args[0]
+        else:
+            break
     if isinstance(it, ast.Call) and src(it.func) == "sorted":
         return True
     if isinstance(it, ast.Name):
